@@ -1,7 +1,7 @@
 import itertools
 import random
 
-from pyvc.api import contract, LoopInv, Int, Bytes, ByteArray, ListOf, TupleOf, implies, exists, forall
+from pyvc.api import contract, LoopInv, Int, Bytes, ByteArray, Str, ListOf, TupleOf, implies, exists, forall
 from specs.tlv import rest_frags, frags, enc_upto, enc, Items
 
 LENS = [0, 1, 2, 254, 255, 256, 257, 509, 510, 511, 765, 766]
@@ -168,3 +168,29 @@ class DecodeBytes:
     def corpus():
         for a in DecodeBytearray.corpus():
             yield {"bs": bytes(a["ba"]), "expected": a["expected"]}
+
+
+# ------------------------------------------------------------------------------------------------- debug rendering
+
+
+def _ts_setup(it):
+    kind = it.ctx.choose(["items-bytes", "items-bytearray"])
+    from specs.tlv import DItems as _DI, Items as _I
+
+    return {"d": it.fresh(_I if kind == "items-bytes" else _DI, "d")}
+
+
+@contract("aiohomekit.protocol.tlv:TLV.to_string", prop="C15", modular=True)
+class ToString:
+    """TLV.to_string is evaluated on EVERY encode and decode (it is the argument of a debug log call): it must be total -
+    for every item list, Error items with empty values included, it returns a string and raises nothing"""
+
+    setup = _ts_setup
+    returns = Str
+    raises = {}
+
+    def a_string(result):
+        return isinstance(result, str)
+
+    ensures = [a_string]
+    loops = {1: LoopInv(lambda res: isinstance(res, str), vars={"res": Str})}
